@@ -2,8 +2,8 @@
    The statements are about model.M_EndBlock evaluated with what the translator read from the CURRENT
    source (gen.Gen_EndBlock): a code change that hands SlashOracle anything but the account address,
    reorders the phases, or adds a panic site breaks one of these obligations. *)
-From Coq Require Import ZArith List String.
-From FxV Require Import model.M_EndBlock gen.Gen_EndBlock proofs.P_EndBlock.
+From Coq Require Import ZArith List String Lia.
+From FxV Require Import model.M_EndBlock model.M_Tally gen.Gen_EndBlock proofs.P_EndBlock proofs.P_Tally.
 Import ListNotations.
 Open Scope Z_scope.
 
@@ -40,6 +40,32 @@ Theorem C07_panic_sites_known :
                      ("isNeedOracleSetRequest", "panic")]%string.
 Proof. reflexivity. Qed.
 Print Assumptions C07_panic_sites_known.
+
+(* isNeedOracleSetRequest renders the power difference with "%.<n>f" and panics if LegacyNewDecFromStr
+   rejects the text; a LegacyDec has at most 18 decimals *)
+Theorem C07_powerdiff_format_parses : exists n, gen_powerdiff_precision = Some n /\ 0 <= n <= 18.
+Proof. exists 8. split; [reflexivity|lia]. Qed.
+Print Assumptions C07_powerdiff_format_parses.
+
+(* gov proposal tally (x/gov/keeper/tally.go, tail after vote summing, step list read from source): for every
+   bonded total, voting power, abstain share, quorum and outcome of the uninterpreted conditions, no division
+   has a zero divisor *)
+Theorem C07_tally_never_divides_by_zero : forall i others,
+  wf_in i -> run gen_tally_steps i others <> TPanic.
+Proof. intros i others H. apply (safe_sound gen_tally_steps no_facts i others H (no_facts_hold i)). vm_compute. reflexivity. Qed.
+Print Assumptions C07_tally_never_divides_by_zero.
+
+(* the only other divisions in Tally divide by a bonded validator's delegator shares *)
+Theorem C07_tally_loop_divisors : gen_tally_loop_divisors = ["val.DelegatorShares"; "val.DelegatorShares"]%string.
+Proof. reflexivity. Qed.
+Print Assumptions C07_tally_loop_divisors.
+
+(* non-vacuity / sensitivity: hoisting the veto division above the all-abstain guard halts the chain on an
+   unvoted proposal once quorum is 0 *)
+Theorem C07_tally_hoisted_division_panics :
+  wf_in unvoted /\ run steps_hoisted unvoted [] = TPanic /\ safe steps_hoisted no_facts = false.
+Proof. exact hoisted_panics. Qed.
+Print Assumptions C07_tally_hoisted_division_panics.
 
 (* the defect this property had (fixed in /repo, see KNOWN_FINDINGS.json): with the rendered record handed
    to SlashOracle by the bridge-call loop a perfectly ordinary state halts the chain *)
